@@ -251,6 +251,9 @@ func (w *World) Callees(site ssa.CallInstruction) []*ssa.Function {
 		return []*ssa.Function{f}
 	}
 	g := w.VTA()
+	if os.Getenv("SVCHECK_CG") == "cha" {
+		g = w.CHA()
+	}
 	n := g.Nodes[site.Parent()]
 	if n == nil {
 		return nil
